@@ -29,10 +29,11 @@ def parseVote : List String → Option Vote
     | _, _, _, _ => none
   | _ => none
 
-/-- arbiter kinds of the harness: o origin, c / C CRC arbiter (C: claimed DPoS node key),
+/-- arbiter kinds of the harness: o origin, p elected producer (DPoS arbiter member type),
+    c / C CRC arbiter (C: claimed DPoS node key),
     d / D the same but deposed (`isNormal = false`). -/
 def kind? (s : String) : Option Bool :=
-  if s = "o" || s = "c" || s = "C" then some true
+  if s = "o" || s = "c" || s = "C" || s = "p" then some true
   else if s = "d" || s = "D" then some false else none
 
 def parseArb : List String → Option Arb
@@ -53,7 +54,43 @@ def fmtPoolStep (x : Option SanityErr × Option Nat) : String :=
   (match x.1 with | none => "no-block" | e => fmtSanity e) ++ ":" ++
   (match x.2 with | none => "-" | some i => toString i)
 
+/-- chain steps: `b`, `B/<sponsor>/<ssig>/<votes>`, `c/<sponsor>/<ssig>/<votes>`. -/
+def parseCStep (x : String) : Option CStep :=
+  if x = "b" then some .blk else
+  match x.splitOn "/" with
+  | [k, sp, ss, vs] =>
+    match nat? sp, flag? ss, parseList parseVote vs with
+    | some sp, some ss, some vs =>
+      if k = "B" then some (.blkConf ⟨sp, ss, vs⟩) else if k = "c" then some (.conf ⟨sp, ss, vs⟩) else none
+    | _, _, _ => none
+  | _ => none
+
+def parseCSteps (xs : List String) : Option (List CStep) :=
+  xs.foldr (fun x acc => match parseCStep x, acc with
+    | some v, some l => some (v :: l)
+    | _, _ => none) (some [])
+
+def fmtPC (st : PCState) : String :=
+  (if st.connected then "1" else "0") ++ ":" ++ (match st.cached with | some (i, _) => toString i | none => "-")
+
+/-- the `chain` op runs on a node with five normal origin arbiters, keys 0..4. -/
+def chainArbs : List Arb := [⟨0, true⟩, ⟨1, true⟩, ⟨2, true⟩, ⟨3, true⟩, ⟨4, true⟩]
+
+def fmtDisp (x : Bool × Bool × Nat) : String :=
+  (if x.1 then "1" else "0") ++ (if x.2.1 then "1" else "0") ++ ":" ++ toString x.2.2
+
 def stepC25 : List String → String
+  | ["disp", arbs, votes] =>
+      match parseList parseArb arbs, parseList parseVote votes with
+      | some arbs, some vs => if vs.isEmpty then "bad-op" else " ".intercalate ((dispRun arbs [] vs).map fmtDisp)
+      | _, _ => "bad-op"
+  | "chain" :: era :: steps =>
+      match parseCSteps steps with
+      | some steps =>
+        if era = "d" || era = "p" then
+          " ".intercalate ((chainRun (era = "d") chainArbs ⟨false, none, false⟩ 0 steps).map fmtPC)
+        else "bad-op"
+      | none => "bad-op"
   | ["maj", n, k] => match nat? n, nat? k with
       | some n, some k => s!"{majority n} {if hasMajority n k then 1 else 0}"
       | _, _ => "bad-op"
